@@ -143,9 +143,34 @@ restored {d2}") }),
         out.push(V { sig: format!("C20|field-lost|{}", f.join("+")), what: format!("before {before:?}\nafter  {after:?}") });
         return out;
     }
+    // (ii') the async front-end restores through its constructor: the same session must come out of it
+    let mut atwin: Option<crate::adev::ACore<14, 0>> = None;
+    match catch(|| serde_json::from_str::<Session>(&doc)) {
+        Ok(Ok(s2)) => {
+            let mut acfg = DevCfg::abp(&cfg.region);
+            acfg.fcnt_down = Some(before.fcnt_down);
+            let at: crate::adev::ACore<14, 0> = crate::adev::ACore::with_session(&acfg, false, Some(s2));
+            let after_a = session_of(&at.snap());
+            if after_a != Some(before) {
+                out.push(V { sig: "C20|field-lost|async-constructor".into(), what: format!("before {before:?}\nafter  {after_a:?}") });
+                return out;
+            }
+            atwin = Some(at);
+        }
+        _ => {}
+    }
     // (iii) twin lock-step: a second copy of the original (replayed history) vs the restored device
     let mut a = history_replay();
     let snap = a.snap();
+    // the async twin takes part in the first probe (a plain uplink) when its ADR flag needs no change (switching ADR
+    // off resets the ADR counter by design and the async front-end has no set_session to undo that)
+    if let Some(at) = atwin.as_mut() {
+        if snap.adr_enabled {
+            at.dev.set_datarate(dr_of(snap.data_rate));
+        } else {
+            atwin = None;
+        }
+    }
     twin.dev.set_datarate(dr_of(snap.data_rate));
     twin.dev.set_adr(snap.adr_enabled);
     // set_adr(false) resets the ADR counter by design: re-install the session afterwards
@@ -161,6 +186,20 @@ restored {d2}") }),
         if let Some(p) = oa.4.as_ref().or(ob.4.as_ref()) {
             out.push(V { sig: format!("C20|panic|after-restore|{}", panic_site(p)), what: p.clone() });
             return out;
+        }
+        if i == 0
+            && let Some(at) = atwin.as_mut()
+            && let Ev::Cycle { confirmed, port, len, .. } = e
+        {
+            let st = at.apply(&crate::adev::AEv::Send { confirmed: *confirmed, port: *port, len: *len, script: Default::default() });
+            let txa: Vec<Vec<u8>> = st.map(|s| s.ops.iter().filter_map(|o| if let crate::adev::AOp::Tx { bytes, .. } = o { Some(bytes.clone()) } else { None }).collect()).unwrap_or_default();
+            if txa != oa.0 {
+                out.push(V {
+                    sig: "C20|restored-device-uplink-differs|async-constructor".into(),
+                    what: format!("original sends {:?}, a device constructed around the restored session sends {:?}", oa.0.iter().map(|b| hex(b)).collect::<Vec<_>>(), txa.iter().map(|b| hex(b)).collect::<Vec<_>>()),
+                });
+                return out;
+            }
         }
         if oa.0 != ob.0 {
             out.push(V {
@@ -219,6 +258,14 @@ fn alphabet(region: &str) -> Vec<Ev> {
         port: 1,
         len: 1,
         rx1: Some(Frame::Down { fcnt: Fcnt::Rel(2), confirmed: false, ack: false, fopts: vec![], port: Some(0), payload: vec![0x08, 0x02, 0x06, 0x06, 0x06, 0x06, 0x08, 0x03, 0x08, 0x04], tamper: Tamper::None }),
+        rx2: None,
+    });
+    // the network's very first downlink carries counter 0 (only acceptable while no downlink has been seen)
+    v.push(Ev::Cycle {
+        confirmed: false,
+        port: 1,
+        len: 1,
+        rx1: Some(Frame::Down { fcnt: Fcnt::Abs(0), confirmed: true, ack: false, fopts: vec![], port: Some(2), payload: vec![7], tamper: Tamper::None }),
         rx2: None,
     });
     v.push(Ev::SetAdr(false));
@@ -616,6 +663,13 @@ pub fn run(tier: Tier, replay: Option<&str>) {
             c.fcnt_down = fd;
             cfgs.push(c);
         }
+        // sessions in the middle of the ADR acknowledgement request / back-off
+        for cnt in [63u32, 64, 95, 96] {
+            let mut c = DevCfg::abp(region);
+            c.dr = Some(if region == "US915" { 3 } else { 5 });
+            c.adr_ack_cnt = Some(cnt);
+            cfgs.push(c);
+        }
     }
     let mut states = 0u64;
     let mut transitions = 0u64;
@@ -692,7 +746,7 @@ pub fn run(tier: Tier, replay: Option<&str>) {
         ],
         "evaluations": ctx.evals(),
         "distinct_nontrivial": states + muts.load(Ordering::Relaxed),
-        "rule": "BFS over session histories on the real device (plain / confirmed uplinks, downlinks that queue sticky and one-shot answers, owed ACKs, 3..15 bytes of pending answers through port 0, set_adr) from sessions whose counters start at 16/32-bit boundaries and with/without a downlink seen; at EVERY reached state the session is serialised with serde_json, deserialised, re-serialised (identical document), compared field by field through the snapshot hook, and a fresh device given the restored session runs in lock-step with the original for four probe transactions (uplink, replays of the last two accepted downlinks, a fresh confirmed downlink with a MAC command, uplink). Malformed documents: every single structural mutation (delete / duplicate / null / wrong type / boundary numbers / arrays one shorter or longer / non-byte elements) of the documents of representative states; the positional (sequence) form of every struct of the document - each alone and all together - and, on those, every number replaced by boundary values; pairs in thorough",
+        "rule": "BFS over session histories on the real device (plain / confirmed uplinks, downlinks that queue sticky and one-shot answers, owed ACKs, 3..15 bytes of pending answers through port 0, set_adr) from sessions whose counters start at 16/32-bit boundaries, with/without a downlink seen (incl. a first downlink with counter 0) and with the ADR counter at 63 / 64 / 95 / 96; at EVERY reached state the session is serialised with serde_json, deserialised, re-serialised (identical document), compared field by field through the snapshot hook - after nb set_session and after the async constructor new_with_session, whose next uplink must also be the original's -, and a fresh device given the restored session runs in lock-step with the original for four probe transactions (uplink, replays of the last two accepted downlinks, a fresh confirmed downlink with a MAC command, uplink). Malformed documents: every single structural mutation (delete / duplicate / null / wrong type / boundary numbers / arrays one shorter or longer / non-byte elements) of the documents of representative states; the positional (sequence) form of every struct of the document - each alone and all together - and, on those, every number replaced by boundary values; pairs in thorough",
         "bfs_depth": depth,
         "documents_mutated": docs.len(),
         "mutated_documents_evaluated": muts.load(Ordering::Relaxed),
